@@ -1,7 +1,7 @@
 """dev/seedtest.py <seed_dir> <prop> : confirm a seeded change (demo passes on the unchanged tree, fails with the patch,
 listed tests pass with the patch) and run the property's check against the patched scratch copy."""
 import os, shutil, subprocess, sys, tempfile, json
-seed, prop = sys.argv[1], sys.argv[2]
+seed, prop = os.path.abspath(sys.argv[1]), sys.argv[2]
 tests = sys.argv[3:] or ['pyx12/test']
 tmp = tempfile.mkdtemp(prefix='pyvc_seed_')
 out = {}
